@@ -313,9 +313,16 @@ func (w *worker) runCase(cfg Cfg, name string, next func(*view) (string, bool)) 
 			var usedChans []int // interleaved RTP channels of the addressed session before the request
 			if k := linked; r.Method == "setup" {
 				if k < 0 {
-					k, _ = strconv.Atoi(r.Sid)
+					// not linked: the addressed session is the one named by a numeric Session field; a
+					// request without a Session header ("n") or with an unknown id ("w") creates a NEW
+					// session, whose channels are all free (Atoi("n") == 0 made this oracle look at
+					// session 0: false alarm corrected, see DESIGN 10.5)
+					var err error
+					if k, err = strconv.Atoi(r.Sid); err != nil {
+						k = -1
+					}
 				}
-				if mp := in.sessMedia[k]; mp != nil && mp.tcp {
+				if mp := in.sessMedia[k]; k >= 0 && mp != nil && mp.tcp {
 					usedChans = append(usedChans, mp.chans...)
 				}
 			}
